@@ -15,6 +15,7 @@ not before, then the operation was an HTTP request *by `b`* and that request was
 for `U`: it carried `U`'s valid remember token, or its route's own credential check for
 `U` succeeded (see `C01_licence_*` for what that means per route). -/
 theorem C01_step (cfg : Config) (s : State) (op : Op) (b U : Bytes)
+    (hreal : ∀ b' j, op ≠ .setSess b' j)   -- `setSess` is the harness' state-injection shortcut, not an operation of the system
     (hnew : ((step cfg s op).1.browser b).sess.get .uid = some U)
     (hold : (s.browser b).sess.get .uid ≠ some U) :
     ∃ rt req fault, op = .http b rt req fault ∧ ServeLic rt (initCtx cfg s b req fault) U := by
@@ -43,10 +44,12 @@ theorem C01_step (cfg : Config) (s : State) (op : Op) (b U : Bytes)
     · subst hb; rw [setBrowser_browser] at hnew; exact absurd hnew hold
     · rw [setBrowser_other _ _ _ _ hb] at hnew; exact absurd hnew hold
   | seedUser u => exact absurd (by simpa [step, State.browser] using hnew) hold
+  | setSess b' j => exact absurd rfl (hreal b' j)
 
 /-- **C01_history.** Along every history, every point at which a browser's session starts
 naming `U` is an HTTP request of that browser licensed for `U` in the state just before it. -/
 theorem C01_history (cfg : Config) (s0 : State) (pre : List Op) (op : Op) (b U : Bytes)
+    (hreal : ∀ b' j, op ≠ .setSess b' j)
     (hnew : ((run cfg s0 (pre ++ [op])).browser b).sess.get .uid = some U)
     (hold : ((run cfg s0 pre).browser b).sess.get .uid ≠ some U) :
     ∃ rt req fault, op = .http b rt req fault ∧
@@ -54,7 +57,7 @@ theorem C01_history (cfg : Config) (s0 : State) (pre : List Op) (op : Op) (b U :
   have : run cfg s0 (pre ++ [op]) = (step cfg (run cfg s0 pre) op).1 := by
     simp [run, List.foldl_append]
   rw [this] at hnew
-  exact C01_step cfg _ op b U hnew hold
+  exact C01_step cfg _ op b U hreal hnew hold
 
 /-- **C01_event_handlers.** No event handler of any unit — whatever is loaded, in whatever
 order — ever establishes a session: `FireBefore`/`FireAfter` leave the pending `uid` writes
